@@ -11,7 +11,7 @@ UNIT = "asmjit/core/codewriter.cpp"
 
 
 def load_a64_db(chk):
-    out = os.path.join(core.CACHE, "dba64-%s.json" % core.tree_hash()[:16])
+    out = os.path.join(core.CACHE, "dba64v2-%s.json" % core.tree_hash()[:16])
     if not os.path.exists(out):
         os.makedirs(core.CACHE, exist_ok=True)
         tmp = out + ".%d.tmp" % os.getpid()
